@@ -152,6 +152,67 @@ META = {
         "level_note": "Compares digests (64-bit FNV) rather than full outputs; a collision could hide a difference with probability ~2^-64 per comparison.",
         "design_ref": "DESIGN.md section 6, C22",
     },
+    "C32": {
+        "budget": {"quick": 50, "thorough": 720},
+        "rule": "byte strings of length 0-16 KiB (random, constant, ramps, sparse, mutants of inputs that produced a new definition kind) with 1-6 definitions per kind: DocumentBuilder::build must not panic, "
+                "an Ok document must have no syntax errors and pass to_mixed_validate, and two builds from the same bytes must be identical (cross-process determinism is C22's); "
+                "operations from with_document(parsed schema).operation_definition() for schemas from the model generator (explicit schema definition), the corpus and apollo-smith itself must validate against that schema and generation must not panic. "
+                "Any arbitrary::Error counts as the allowed `input exhausted` outcome. distinct_nontrivial = distinct generated documents plus distinct (schema, operation) pairs",
+        "assumptions": COMMON_ASSUMPTIONS + [
+            "documents or operations nested deeper than apollo's default parser recursion limit cannot be judged by apollo and are counted, not judged",
+            "validity is judged by apollo-compiler (C14/C17 check that validator against reference models)",
+        ],
+        "floors": {"any": {"outcome": ["document"], "operation_outcome": ["operation"],
+                           "operation_schema_source": ["model", "corpus", "smith"],
+                           "definition_kind_generated": ["type", "interface", "union", "enum", "input", "scalar", "directive", "query"]}},
+        "crash_class": "smith",
+        "technique": "runtime monitoring: validity and determinism monitor over apollo-smith outputs for generated byte strings, with child-process crash attribution",
+        "level_text": "Exploration: 10^4-10^5 byte strings and (schema, bytes) pairs are fed to apollo-smith; every output is parsed and validated and generation is repeated to check determinism.",
+        "level_note": "Trusts apollo-compiler's validation as the judge of validity; stack overflows are attributed through the in-flight case file and confirmed in a fresh process.",
+        "design_ref": "DESIGN.md section 6, C32",
+    },
+    "C24": {
+        "budget": {"quick": 45, "thorough": 700},
+        "rule": "inputs: (A) model path - schemas from the harness generator (all six kinds, descriptions, @deprecated on fields/args/input fields/enum values, "
+                "default values of every allowed kind, interfaces implementing interfaces, unions, custom scalars with @specifiedBy, repeatable directives, "
+                "type and schema extensions before/after the definition, renamed roots, schema description), printed plainly (3/4) or with random trivia and block strings (1/4); "
+                "(B) parsed path - two fixed schemas, every corpus file whose type-system part apollo-rs validates, apollo-smith documents, converted from apollo's AST. "
+                "For each schema apollo-rs validates: the graphql-js v16 full introspection query (descriptions, specifiedByURL, isRepeatable, schema description, input-value deprecation) "
+                "is run through introspection::partial_execute; errors must be empty and data, after sorting types/directives by name and the fields of __* types by name, "
+                "must equal RefIntrospection(model); then the same query with one concrete root field (required arguments supplied, with or without alias, before or after __schema) "
+                "must give the same data with no key for that field and no error. "
+                "distinct_nontrivial = distinct SDL texts that apollo-rs validated, that lie inside the envelope, and whose whole response was compared with the reference",
+        "assumptions": COMMON_ASSUMPTIONS + [
+            "the oracle is a reference model written in the harness from the October 2021 specification and graphql-js v16 semantics (buildASTSchema + introspectionFromSchema); it is not graphql-js or graphql-core, which are not available offline",
+            "default values are restricted to the class where graphql-js's coerce-and-reprint is unambiguous: 32-bit Int, Float with a non-zero fraction in plain decimal form, printable-ASCII strings without quote or backslash, "
+            "booleans, enum values, null, list literals of those, input-object literals with fields in definition order that omit no field having a default, ID strings that do not look like integers; "
+            "schemas with other defaults are skipped and counted (generated ones are inside by construction)",
+            "descriptions of the built-in __* types (their fields, arguments, enum values), of Int/Float/String/Boolean/ID and of @skip/@include/@deprecated/@specifiedBy and their arguments are not compared (reference wording not available offline); their structure is",
+            "don't-care bands that are not generated and are skipped on the parsed path: @deprecated(reason: null) (graphql-js v16: not deprecated; specification text: deprecated), @specifiedBy on a scalar extension "
+            "(graphql-js v16 reads it from the definition only), redefinition of built-in scalars/directives, schema extension without schema definition",
+            "response key order inside an object is not compared (execution order is C26's subject); every list except types, directives and fields of __* types is compared in order, including interfaces and possibleTypes",
+        ],
+        "floors": {"any": {
+            "kind": ["SCALAR", "OBJECT", "INTERFACE", "UNION", "ENUM", "INPUT_OBJECT", "LIST", "NON_NULL"],
+            "feature": ["deprecated_field", "deprecated_arg", "deprecated_enum_value", "deprecated_input_field", "deprecated_default_reason",
+                        "specifiedBy", "repeatable_directive", "non_repeatable_directive", "interface_implements_interface", "union",
+                        "interface_with_several_possible_types", "non_null_list_of_non_null", "type_extension", "extension_before_definition", "extension_adds_interface",
+                        "schema_extension", "renamed_roots", "schema_description", "description_type", "description_field", "description_arg",
+                        "description_enum_value", "description_input_field", "description_directive", "unreferenced_builtin_scalar_omitted"],
+            "default_kind": ["int", "float", "string", "boolean", "enum", "null", "list", "object"],
+            "path": ["model", "parsed"],
+            "source": ["model_plain", "model_trivia", "fixed", "corpus", "smith"],
+        }},
+        "technique": "runtime monitoring: differential comparison of partial_execute's response with an independent reference model of graphql-js v16 introspection over generated, corpus and apollo-smith schemas",
+        "level_text": "Exploration: the full introspection response of 10^4-10^6 valid schemas covering every feature in the property's quantifier is compared field by field with an independent reference model; the skip-concrete-fields clause is checked on the same schemas.",
+        "level_note": "The oracle is a reference model written in the harness from the specification (section 4) and graphql-js v16 semantics, NOT graphql-js/graphql-core themselves (not available offline). "
+                      "Envelope of certainty: default values only from the class graphql-js reprints unambiguously (32-bit Int, Float with non-zero fraction, simple ASCII strings, booleans, enum values, null, lists of those, "
+                      "input objects in definition order with no defaulted field omitted, non-integer-looking ID strings); everything else is skipped and counted. "
+                      "Descriptions of built-in __* types, built-in scalars and built-in directives (and their arguments) are not compared, only their structure. "
+                      "@deprecated(reason: null) and @specifiedBy on a scalar extension are don't-care bands (graphql-js v16 and the specification text differ) and are not generated. "
+                      "interfaces and possibleTypes are compared in order (both sides: definition order), nothing is compared as a set. On the parsed path (corpus, smith, replays) the model is converted from apollo's own AST.",
+        "design_ref": "DESIGN.md section 6, C24",
+    },
 }
 
 # Properties not claimed, with the reason (kept current; see DESIGN.md section 10).
